@@ -266,22 +266,36 @@ pub mod mapref {
             pub(crate) g: RwLockWriteGuard<'a, Shard<K, V>>,
             pub(crate) key: K,
         }
-        impl<'a, K: Eq + Hash + Clone, V> Entry<'a, K, V> {
+        impl<'a, K: Eq + Hash, V> Entry<'a, K, V> {
+            /// insert-or-keep through std's entry API (the key is moved, never cloned); the key's
+            /// address inside the table is then found by the value's address (shards are tiny here)
+            fn settle(self, make: impl FnOnce() -> V, overwrite: bool) -> super::one::RefMut<'a, K, V> {
+                let Entry { mut g, key } = self;
+                let vp: *mut V = {
+                    let mut make = Some(make);
+                    let slot = match g.entry(key) {
+                        std::collections::hash_map::Entry::Occupied(o) => {
+                            let r = o.into_mut();
+                            if overwrite {
+                                *r = (make.take().unwrap())();
+                            }
+                            r
+                        }
+                        std::collections::hash_map::Entry::Vacant(v) => v.insert((make.take().unwrap())()),
+                    };
+                    slot as *mut V
+                };
+                let kp: *const K = g.iter().find(|(_, v)| std::ptr::eq(*v as *const V, vp as *const V)).map(|(k, _)| k as *const K).unwrap();
+                super::one::RefMut { _g: g, k: kp, v: vp }
+            }
             pub fn and_modify(mut self, f: impl FnOnce(&mut V)) -> Self {
                 if let Some(v) = self.g.get_mut(&self.key) {
                     f(v);
                 }
                 self
             }
-            pub fn or_insert_with(mut self, f: impl FnOnce() -> V) -> super::one::RefMut<'a, K, V> {
-                if !self.g.contains_key(&self.key) {
-                    self.g.insert(self.key.clone(), f());
-                }
-                let (kp, vp) = {
-                    let (k, v) = self.g.get_key_value(&self.key).unwrap();
-                    (k as *const K, v as *const V as *mut V)
-                };
-                super::one::RefMut { _g: self.g, k: kp, v: vp }
+            pub fn or_insert_with(self, f: impl FnOnce() -> V) -> super::one::RefMut<'a, K, V> {
+                self.settle(f, false)
             }
             pub fn or_insert(self, v: V) -> super::one::RefMut<'a, K, V> {
                 self.or_insert_with(|| v)
@@ -292,13 +306,8 @@ pub mod mapref {
             {
                 self.or_insert_with(V::default)
             }
-            pub fn insert(mut self, v: V) -> super::one::RefMut<'a, K, V> {
-                self.g.insert(self.key.clone(), v);
-                let (kp, vp) = {
-                    let (k, v) = self.g.get_key_value(&self.key).unwrap();
-                    (k as *const K, v as *const V as *mut V)
-                };
-                super::one::RefMut { _g: self.g, k: kp, v: vp }
+            pub fn insert(self, v: V) -> super::one::RefMut<'a, K, V> {
+                self.settle(|| v, true)
             }
             pub fn key(&self) -> &K {
                 &self.key
